@@ -86,6 +86,8 @@ type nodeCase struct {
 	uncommitted []*chain.Entry
 	path        string
 	exotic      string
+	// filterMax: largest address selection of the starknet_getStateUpdate filter enumeration (optparams_test.go); 0 = 1
+	filterMax int
 }
 
 type blockID struct {
@@ -104,7 +106,9 @@ type check struct {
 	l1      int // -1: no L1 head recorded
 	local   map[string]int64
 	reqs    int64
-	full    bool // issue the L1-independent requests too
+	// filterReqs / filterMulti: filtered state-update requests / those whose expected answer keeps >= 2 contracts' storage
+	filterReqs, filterMulti int64
+	full                    bool // issue the L1-independent requests too
 	// sink, if set, receives the violations instead of the run (uncommitted_test.go attributes them first)
 	sink func(key string, detail any)
 }
@@ -361,6 +365,8 @@ func (c *check) run() {
 		}
 		c.ask("starknet_getBlockTransactionCount", `{`+bid+`}`, id.kind, id.minVersion, notFound, func(int) any { return num(uint64(len(e.Block.Transactions))) })
 		c.ask("starknet_getStateUpdate", `{`+bid+`}`, id.kind, id.minVersion, notFound, func(v int) any { return wantStateUpdate(e, v) })
+		// 0.10 optional address filter (optparams_test.go)
+		c.filterQueries(id)
 		// --- (block, index)
 		ntx := 0
 		if e != nil {
@@ -579,6 +585,8 @@ func checkNode(r *ev.Run, label, backend string, newState bool, nc *nodeCase, db
 		r.Add("l1_positions", 1)
 	}
 	r.Add("evaluations", c.reqs)
+	r.Add("state_update_filter_requests", c.filterReqs)
+	r.Add("state_update_filter_requests_keeping_2+_contracts_storage", c.filterMulti)
 	r.Add("nodes_checked", 1)
 	tal.merge(c.local)
 }
@@ -642,8 +650,11 @@ func checkLongLived(r *ev.Run, label, backend string, newState bool, n *hist.Nod
 	tal.merge(local)
 }
 
+// histFilterMax: address-selection size of the state-update filter enumeration on the history nodes (set by TestCheck)
+var histFilterMax = 2
+
 func fromHist(n *hist.Node) *nodeCase {
-	return &nodeCase{chain: n.Chain, reverted: n.Reverted, path: n.PathString(), exotic: n.Exotic()}
+	return &nodeCase{chain: n.Chain, reverted: n.Reverted, path: n.PathString(), exotic: n.Exotic(), filterMax: histFilterMax}
 }
 
 func TestCheck(t *testing.T) {
@@ -657,6 +668,18 @@ func TestCheck(t *testing.T) {
 	reduce := r.Quick()
 	var states, transitions int64
 	var rule []string
+	histFilterMax = ev.Pick(r, 2, 3)
+	// dense chain (several contracts changed per block) with the full request grid and the address-filter enumeration
+	// up to 3 addresses in every order (optparams_test.go), both backends. First: it is small and must never be cut.
+	for _, newState := range []bool{false, true} {
+		backend := hist.Backend(newState)
+		dcs := denseCases(r, newState)
+		ev.Par(len(dcs), 8, func(i int) {
+			checkNode(r, "dense"+backend, backend, newState, dcs[i].nc, dcs[i].db, false)
+			r.Add("dense_nodes", 1)
+		})
+	}
+	r.Set("state_update_filters_per_block_id", obj{"dense nodes (<=3 addresses)": len(filterSets[3]), "history nodes": len(filterSets[histFilterMax]), "long-lived / uncommitted sweeps": len(filterSets[1])})
 	// scripted chain with every transaction kind, both backends
 	for _, newState := range []bool{false, true} {
 		backend := hist.Backend(newState)
@@ -740,6 +763,7 @@ func TestCheck(t *testing.T) {
 	r.Set("rule", "every target of every {store(block alphabet), revertHead} transition ("+strings.Join(rule, "; ")+") + scripted all-tx-kinds chain with revert/re-store; "+
 		"x L1 head in {none, 0..head, head+1} x block ids {0..head+1, stored/reverted/unknown hash, latest, l1_accepted} x 16 read methods x "+
 		"{(block,index), tx hashes stored/reverted/unknown, 6 contracts x 8 slots, 5 classes} x API v0.8/v0.9/v0.10 through jsonrpc.Server.HandleReader; "+red+
+		"; 0.10 starknet_getStateUpdate additionally with the optional contract_addresses filter for every block id: every ordered selection of <=k distinct universe addresses + [] + [a,a] (k=3 on the dense several-contracts-per-block chain, "+fmt.Sprint(histFilterMax)+" on history nodes, 1 on long-lived / uncommitted sweeps), expected = model state update restricted to the selection"+
 		"; every history with a revert additionally on ONE long-lived node with the whole read sweep after every operation (memoised lookups must not survive a reorg)"+
 		"; a node is non-trivial = one history target with its own reverted-hash set")
 	r.Assume = append(r.Assume,
